@@ -4,6 +4,7 @@ CONSTANTS
   EnforceSessMarker = TRUE
   EnforceTrkMarker = TRUE
   SessionEndRule = "ignore"
+  CookieAgeOverridesExp = FALSE
 INIT Init
 NEXT Next
 INVARIANTS
